@@ -884,7 +884,8 @@ class ppc_addi(ppc_mn):
     namestr = ['ADDI', 'LI']
 
     def name2str(self):
-        if self.ra == 0:
+        # only ADDI/ADDIS have a simplified mnemonic for ra == 0
+        if self.ra == 0 and len(self.namestr) > 1:
             return self.namestr[1]
         return self.namestr[0]
 
